@@ -70,6 +70,8 @@ public:
   int nextStmt = 0;
   std::vector<const CXXMethodDecl *> lambdaQueue;
   std::set<const CXXMethodDecl *> lambdaSeen;
+  std::set<const FunctionDecl *> lambdaSpecSeen;  // instantiated call operators of generic lambdas already dumped
+  int specOf = -1;                                // decl id of the pattern while a specialisation is dumped
   std::string os; // output of current function
 
   Dumper(ASTContext &C) : Ctx(C), SM(C.getSourceManager()), PP(C.getLangOpts()) {
@@ -135,6 +137,23 @@ public:
       return fullName(RD);
     }
     return "";
+  }
+
+  // Instantiated specialisations (with a body, not dependent) of the call operator of a generic
+  // lambda, in instantiation order.  Empty for a non-generic lambda.
+  std::vector<const FunctionDecl *> lambdaSpecs(const CXXMethodDecl *Op) {
+    std::vector<const FunctionDecl *> r;
+    if (!Op) return r;
+    FunctionTemplateDecl *FTD = Op->getDescribedFunctionTemplate();
+    if (!FTD) return r;
+    std::set<const FunctionDecl *> have;
+    for (FunctionDecl *Spec : FTD->specializations()) {
+      const FunctionDecl *Def = nullptr;
+      if (!Spec || !Spec->hasBody(Def) || !Def || !Def->getBody()) continue;
+      if (Def->isDependentContext()) continue;
+      if (have.insert(Def->getCanonicalDecl()).second) r.push_back(Def);
+    }
+    return r;
   }
 
   // ---- expression / statement skipping --------------------------------------------------------
@@ -432,6 +451,18 @@ public:
       const CXXMethodDecl *Op = X->getCallOperator();
       kvi("op_decl", declId(Op));
       if (lambdaSeen.insert(Op).second) lambdaQueue.push_back(Op);
+      if (Op && Op->getDescribedFunctionTemplate()) {
+        // generic lambda: op_decl is the dependent pattern; list the instantiated call operators
+        kvb("generic", true);
+        os += ",\"op_specs\":[";
+        bool fs = true;
+        for (const FunctionDecl *Sp : lambdaSpecs(Op)) {
+          if (!fs) os += ",";
+          fs = false;
+          os += std::to_string(declId(Sp));
+        }
+        os += "]";
+      }
       os += ",\"captures\":[";
       bool f = true;
       for (auto &C : X->captures()) {
@@ -655,6 +686,7 @@ public:
         tk = SD->getSpecializationKind() == TSK_ExplicitSpecialization ? "spec" : "inst";
     }
     kvs("tk", tk);
+    if (specOf >= 0) kvi("spec_of", specOf);
     kvs("file", fileOf(FD->getLocation()));
     kvi("line", line(FD->getBeginLoc()));
     kvi("end", line(FD->getEndLoc()));
@@ -747,9 +779,20 @@ public:
       while (qi < D.lambdaQueue.size()) {
         const CXXMethodDecl *Op = D.lambdaQueue[qi++];
         if (!Op || !Op->getBody()) continue;
-        std::string ls = D.dumpFunction(Op, Opt, Op->isDependentContext(), parent + "::<lambda@" + std::to_string(D.line(Op->getBeginLoc())) + ">");
+        std::string lname = parent + "::<lambda@" + std::to_string(D.line(Op->getBeginLoc())) + ">";
+        std::string ls = D.dumpFunction(Op, Opt, Op->isDependentContext(), lname);
         // dumpFunction may have re-queued nested lambdas (already dumped as trees); keep queue monotone
         out << ",\n" << ls;
+        // generic lambda: the instantiated call operators follow their pattern under the same name
+        // (tk "inst", own decl id == cdecl of the closure calls, spec_of = decl id of the pattern);
+        // lambdas nested in a specialisation are queued by dumpFunction and handled by this loop
+        for (const FunctionDecl *Sp : D.lambdaSpecs(Op)) {
+          if (!D.lambdaSpecSeen.insert(Sp->getCanonicalDecl()).second) continue;
+          D.specOf = D.declId(Op);
+          std::string ss = D.dumpFunction(Sp, Opt, false, lname);
+          D.specOf = -1;
+          out << ",\n" << ss;
+        }
       }
     }
     out << "\n],\"types\":[";
